@@ -59,14 +59,38 @@ func c11cli(c *h.Ctx) {
 		if exportAs != "" {
 			prod.Set("exportAs", exportAs)
 		}
+		// hooks that print are not part of what the task's commands wrote; the log level and the output format do not
+		// change what is handed on
+		hooks := r.Chance(40)
+		if hooks {
+			prod.Set("before", []interface{}{"echo preparing", "echo still-preparing 1>&2"})
+			prod.Set("after", []interface{}{"echo cleaning-up"})
+		}
+		ctxHooks := r.Chance(25)
+		if ctxHooks {
+			prod.Set("context", "noisy")
+		}
 		cons := gen.OM{{K: "command", V: []interface{}{fmt.Sprintf("printenv '%s' > '%s/got'; true", varName, real)}}}
 		cfg := gen.OM{{K: "tasks", V: gen.OM{{K: name, V: prod}, {K: "the-consumer", V: cons}}},
 			{K: "pipelines", V: gen.OM{{K: "p", V: []interface{}{gen.OM{{K: "name", V: "produce"}, {K: "task", V: name}}, gen.OM{{K: "name", V: "consume"}, {K: "task", V: "the-consumer"}, {K: "depends_on", V: []interface{}{"produce"}}}}}}}}
+		if ctxHooks {
+			cfg = append(gen.OM{{K: "contexts", V: gen.OM{{K: "noisy", V: gen.OM{{K: "up", V: []interface{}{"echo context-up"}}, {K: "before", V: []interface{}{"echo context-before"}}, {K: "after", V: []interface{}{"echo context-after"}}}}}}}, cfg...)
+		}
+		argv := []string{"-o", []string{"raw", "raw", "prefixed"}[r.Intn(3)]}
+		var env []string
+		switch r.Intn(6) {
+		case 0:
+			argv = append([]string{"-d"}, argv...)
+		case 1:
+			env = append(env, "TASKCTL_DEBUG=true")
+		case 2:
+			cfg = append(gen.OM{{K: "debug", V: true}}, cfg...)
+		}
 		h.WriteFile(real+"/tasks.yaml", gen.YAML(cfg))
-		res := tc{Dir: real}.run(c, "-o", "raw", "p")
+		res := tc{Dir: real, Env: env}.run(c, append(argv, "p")...)
 		c.Eval(1)
 		got := h.ReadFile(real + "/got")
-		cas := map[string]interface{}{"task_name": name, "variable": varName, "content": content, "consumer_saw": got, "exit": res.Exit, "stderr": tail(stripANSI(string(res.Stderr)), 400)}
+		cas := map[string]interface{}{"yaml": gen.YAML(cfg), "argv": argv, "env": env, "task_name": name, "variable": varName, "content": content, "consumer_saw": got, "exit": res.Exit, "stderr": tail(stripANSI(string(res.Stderr)), 400)}
 		if crashed, how := res.Crashed(); crashed {
 			c.Violate("cli-crash/"+h.TopFrame(string(res.Stderr)), "taskctl died: "+how, cas)
 			return
@@ -79,7 +103,7 @@ func c11cli(c *h.Ctx) {
 			c.Violate("cli-dependant-sees-wrong-output", fmt.Sprintf("task %q: the dependant read %q from $%s, the producer wrote %q", name, got, varName, content), cas)
 		}
 		c.Count("cli_handoffs", 1)
-		c.Nontrivial("cli" + name + content + exportAs)
+		c.Nontrivial("cli" + name + content + exportAs + fmt.Sprint(hooks, ctxHooks, argv, env))
 	})
 }
 
